@@ -36,6 +36,45 @@ inductive Strand where
   | Unknown
   deriving Repr, DecidableEq
 
+/-- `String::from_utf8(vec![b])`: a single byte is valid UTF-8 exactly when it is ASCII -/
+def fromUtf8One (b : Nat) : Option (List Nat) := if b < 128 then some [b] else none
+
+/-- an optional leading `+` removed -/
+def stripPlus (s : List Nat) : List Nat := if s.head? = some 43 then s.tail else s
+
+/-- `u8::from_str(s)` (`core::num`, radix 10) with the error erased: an optional `+`, then at least one ASCII digit, no other
+character, value at most 255 (leading zeros are accepted) -/
+def parseU8 (s : List Nat) : Except Unit Nat :=
+  let ds := stripPlus s
+  if ds.isEmpty || !ds.all (fun c => decide (48 ≤ c) && decide (c ≤ 57)) then .error ()
+  else if ds.foldl (fun a c => a * 10 + (c - 48)) 0 < 256 then .ok (ds.foldl (fun a c => a * 10 + (c - 48)) 0) else .error ()
+
+/-- `s.trim_matches(c)` for an ASCII `char` literal `c`: every leading and trailing occurrence removed -/
+def trimByte (c : Nat) (s : List Nat) : List Nat :=
+  ((s.dropWhile (· == c)).reverse.dropWhile (· == c)).reverse
+
+/-- split at every occurrence of the byte `c`; always at least one piece -/
+def splitByte (c : Nat) : List Nat → List (List Nat)
+  | [] => [[]]
+  | x :: r =>
+    if x = c then [] :: splitByte c r
+    else match splitByte c r with
+      | [] => [[x]]
+      | p :: ps => (x :: p) :: ps
+
+/-- split at every occurrence of the non-empty byte string `p` (leftmost, non-overlapping); fuel = length + 1 -/
+def splitSubF (p : List Nat) : Nat → List Nat → List Nat → List (List Nat)
+  | 0, cur, _ => [cur]
+  | _ + 1, cur, [] => [cur]
+  | f + 1, cur, x :: r =>
+    if p.isPrefixOf (x :: r) then cur :: splitSubF p f [] ((x :: r).drop p.length)
+    else splitSubF p f (cur ++ [x]) r
+
+/-- `s.split(c)` for a `char` `c` on a (valid UTF-8) string, collected: an ASCII char is one byte; any other char is found as its
+UTF-8 encoding (UTF-8 is self-synchronising) -/
+def splitChar (c : Nat) (s : List Nat) : List (List Nat) :=
+  if c < 128 then splitByte c s else splitSubF (charStr c) (s.length + 1) [] s
+
 theorem charStr_ascii (c : Nat) (h : c < 128) : charStr c = [c] := by
   simp [charStr, h]
 
